@@ -203,7 +203,7 @@ func runPage(cfg *config) {
 	cwd, _ := os.Getwd()
 	path := filepath.Join(cwd, "pagefile")
 	defer os.Remove(path)
-	id := 0
+	id := cfg.nextID
 	if cfg.replay != nil {
 		for _, c := range cfg.replay {
 			for _, l := range c {
